@@ -7,6 +7,8 @@ import (
 	"bytes"
 	"crypto/cipher"
 	"fmt"
+	"os"
+	"strconv"
 	"testing"
 
 	"github.com/tjfoc/gmsm/sm4"
@@ -21,7 +23,15 @@ var R = hx.NewRecorder("C11", "cases = (mode, key, IV, plaintext, spare capacity
 	"non-trivial = plaintext length >= 1 (and IV != 0 for chained modes); distinct by hash of (mode,key,iv,plaintext)")
 
 func TestMain(m *testing.M) {
-	R.Require("ecb", "cbc", "cfb", "ofb", "blocks>=3", "spare_capacity", "padlike_tail")
+	if k := os.Getenv("C11_CHILD"); k != "" {
+		seed, _ := strconv.ParseUint(k, 10, 64)
+		if msg := freshHistory(seed); msg != "" {
+			fmt.Println(msg)
+			os.Exit(1)
+		}
+		os.Exit(0)
+	}
+	R.Require("ecb", "cbc", "cfb", "ofb", "blocks>=3", "spare_capacity", "padlike_tail", "helper_history", "fresh_process_history")
 	for i := 0; i < 16; i++ {
 		R.Require(fmt.Sprintf("len%%16==%d", i))
 	}
@@ -267,6 +277,153 @@ func TestC11_ErrorsAndIndependence(t *testing.T) {
 		}
 		R.Case(len(pt) > 0, hx.HashKey("indep", mode, key, iv, pt), "independence")
 	})
+}
+
+// A history of helper calls (all four modes, both directions, growing and shrinking lengths) on slices the caller keeps:
+// every slice ever passed in and every slice ever returned must still hold what it held when the call returned - a helper
+// owns neither its arguments nor, afterwards, its results.
+func TestC11_Histories(t *testing.T) {
+	defer sm4.SetIV(make([]byte, 16))
+	hx.Check(t, hx.N(400, 6000), func(t *rapid.T) {
+		iv := gen.BytesN(16).Draw(t, "iv")
+		sm4.SetIV(iv)
+		type kept struct {
+			what string
+			live []byte // the slice itself (full capacity)
+			copy []byte
+		}
+		var held []kept
+		keep := func(what string, b []byte) {
+			full := b[:cap(b)]
+			held = append(held, kept{what, full, append([]byte{}, full...)})
+		}
+		var cts [][3]interface{} // mode, key, ciphertext
+		steps := rapid.IntRange(3, 10).Draw(t, "steps")
+		var hist []string
+		for i := 0; i < steps; i++ {
+			mode := rapid.SampledFrom(modes).Draw(t, "mode")
+			decrypt := len(cts) > 0 && rapid.Bool().Draw(t, "decrypt")
+			if decrypt {
+				c := cts[rapid.IntRange(0, len(cts)-1).Draw(t, "which")]
+				m, key, ct := c[0].(string), c[1].([]byte), c[2].([]byte)
+				// the caller hands over its own ciphertext slice (kept above when it was returned, or a fresh copy with spare room)
+				in := ct
+				if rapid.Bool().Draw(t, "copyct") {
+					in = gen.WithCap(ct, rapid.SampledFrom([]int{0, 16, 64}).Draw(t, "ctspare"), 0x3c)
+					keep("ciphertext copy passed to "+m+" decrypt", in)
+				}
+				var out []byte
+				var err error
+				if pn := hx.Try(func() { out, err = helper(m)(key, in, false) }); pn != nil {
+					t.Fatalf("%s decrypt panicked: %v", m, pn.Val)
+				}
+				if err != nil {
+					t.Fatalf("history %v: %s decrypt of the helper's own ciphertext: %v", hist, m, err)
+				}
+				keep("plaintext returned by "+m+" decrypt", out)
+				hist = append(hist, fmt.Sprintf("D:%s:%d", m, len(ct)))
+			} else {
+				key := gen.BytesN(16).Draw(t, "key")
+				pt := gen.WithCap(gen.Bytes(rapid.IntRange(0, 70)).Draw(t, "pt"), rapid.SampledFrom([]int{0, 1, 16, 40}).Draw(t, "ptspare"), 0x5a)
+				keep("key passed to "+mode+" encrypt", key)
+				keep("plaintext passed to "+mode+" encrypt", pt)
+				var out []byte
+				var err error
+				if pn := hx.Try(func() { out, err = helper(mode)(key, pt, true) }); pn != nil {
+					t.Fatalf("%s encrypt panicked: %v", mode, pn.Val)
+				}
+				if want := refEncrypt(mode, key, iv, pt); err != nil || !bytes.Equal(out, want) {
+					t.Fatalf("history %v: %s encrypt of %d bytes differs from the standard mode (err %v)", hist, mode, len(pt), err)
+				}
+				keep("ciphertext returned by "+mode+" encrypt", out)
+				cts = append(cts, [3]interface{}{mode, key, out})
+				hist = append(hist, fmt.Sprintf("E:%s:%d", mode, len(pt)))
+			}
+			for _, k := range held {
+				if !bytes.Equal(k.live, k.copy) {
+					t.Fatalf("history %v: the %s (%d bytes incl. spare capacity) was changed by a LATER helper call: now %x, was %x", hist, k.what, len(k.copy), k.live, k.copy)
+				}
+			}
+		}
+		R.Case(len(hist) >= 3, hx.HashKey("hist", fmt.Sprint(hist), iv), "helper_history")
+		R.Sample("helper_history", map[string]interface{}{"calls": hist})
+	})
+}
+
+// freshHistory: the same kind of history as the FIRST use of the package in a fresh process (package-level state that
+// only fills up over time - free lists, caches - behaves differently in a young process). A pure function of seed;
+// returns a description of the first problem or "".
+func freshHistory(seed uint64) string {
+	x := seed*6364136223846793005 + 1442695040888963407
+	next := func(n int) int {
+		x = x*6364136223846793005 + 1442695040888963407
+		return int((x >> 33) % uint64(n))
+	}
+	iv := make([]byte, 16)
+	gen.Fill(iv, seed)
+	sm4.SetIV(iv)
+	type kept struct {
+		what       string
+		live, copy []byte
+	}
+	var held []kept
+	keep := func(what string, b []byte) {
+		full := b[:cap(b)]
+		held = append(held, kept{what, full, append([]byte{}, full...)})
+	}
+	type ctT struct {
+		mode    string
+		key, ct []byte
+	}
+	var cts []ctT
+	var hist []string
+	for i := 0; i < 4+next(6); i++ {
+		if len(cts) > 0 && next(2) == 0 {
+			c := cts[next(len(cts))]
+			out, err := helper(c.mode)(c.key, c.ct, false)
+			if err != nil {
+				return fmt.Sprintf("history %v: %s decrypt of the helper's own ciphertext: %v", hist, c.mode, err)
+			}
+			keep("plaintext returned by "+c.mode+" decrypt", out)
+			hist = append(hist, fmt.Sprintf("D:%s:%d", c.mode, len(c.ct)))
+		} else {
+			mode := modes[next(len(modes))]
+			key, pt := make([]byte, 16), make([]byte, next(50))
+			gen.Fill(key, x)
+			gen.Fill(pt, x+1)
+			keep("plaintext passed to "+mode+" encrypt", pt)
+			out, err := helper(mode)(key, pt, true)
+			if want := refEncrypt(mode, key, iv, pt); err != nil || !bytes.Equal(out, want) {
+				return fmt.Sprintf("history %v: %s encrypt of %d bytes differs from the standard mode (err %v)", hist, mode, len(pt), err)
+			}
+			keep("ciphertext returned by "+mode+" encrypt", out)
+			cts = append(cts, ctT{mode, key, out})
+			hist = append(hist, fmt.Sprintf("E:%s:%d", mode, len(pt)))
+		}
+		for _, k := range held {
+			if !bytes.Equal(k.live, k.copy) {
+				return fmt.Sprintf("history %v (first calls of a fresh process): the %s was changed by a LATER helper call: now %x, was %x", hist, k.what, k.live, k.copy)
+			}
+		}
+	}
+	return ""
+}
+
+func TestC11_FreshProcessHistories(t *testing.T) {
+	n := 24
+	if hx.Thorough() {
+		n = 200
+	}
+	var kinds []string
+	for i := 0; i < n; i++ {
+		kinds = append(kinds, fmt.Sprint(uint64(hx.Seed())*1000+uint64(i)))
+	}
+	for k, out := range hx.FirstOpChildren("C11_CHILD", kinds) {
+		t.Fatalf("history #%s run as the first use of the package in a fresh process: %s", k, out)
+	}
+	for _, k := range kinds {
+		R.Case(true, hx.HashKey("fresh", k), "fresh_process_history")
+	}
 }
 
 func TestC11_Replay(t *testing.T) {
